@@ -488,7 +488,7 @@ def chk_tomo(ctx, case):
                 break
         # (e2) the same numbers handed over in other array representations (strided / reversed-stride views, read-only
         #      buffers, float32 when every entry is exactly representable, a tuple of pairs): same estimate
-        if i < 3:
+        if i < 2:
             def _variants(x):
                 big = np.zeros(2 * len(x) + 1); big[1::2] = x
                 ro = x.copy(); ro.setflags(write=False)
@@ -974,7 +974,7 @@ def gen_synthetic(rng, idx):
 
 
 def sub_synthetic(ctx):
-    cases = [gen_synthetic(ctx.rng, i) for i in range(ctx.n(1000 if getattr(ctx, "boost", False) else 220, 2500))]
+    cases = [gen_synthetic(ctx.rng, i) for i in range(ctx.n(1000 if getattr(ctx, "boost", False) else 180, 2500))]
     ctx.sample("synthetic", cases[0])
     ctx.run_cases("synthetic", chk_synthetic, cases)
 
@@ -1246,57 +1246,74 @@ SUBS = [("tomo", sub_tomo), ("history", sub_history), ("rankdef", sub_rankdef), 
 FNS = {"synthetic": chk_synthetic, "tomo": chk_tomo, "rankdef": chk_rankdef, "large": chk_large, "history": chk_history}
 
 
+TRANSLATED = [
+    # (translator, regenerated file, equivalence file re-checked against it)
+    ("c09_py2coq.py", "Gen_c09_linear.v", "C09_Equiv.v"),          # guard, calc_estimate(_sequence), result accessors
+    ("c09_var_py2coq.py", "Gen_c09_var.v", "C09_VarEquiv.v"),      # convert_var_to_hss / convert_var_to_vecs (object from variables)
+]
+
+
 def regen_glue(ctx):
-    """translator tie (same protocol as flow.regen_check, with this property's own translator gen/c09_py2coq.py): regenerate
-    Gallina definitions of StandardQTomography.is_fullrank_matA, LinearEstimator.calc_estimate_sequence / calc_estimate and
-    the result accessors from the CURRENT source, compile them, and re-check coq/gen/C09_Equiv.v (regenerated == hand-written
-    model on all inputs; transported property theorems).  returns (ok, info)"""
+    """translator ties (same protocol as flow.regen_check, with this property's own translators): regenerate Gallina
+    definitions from the CURRENT source, compile them, and re-check the equivalence files of coq/gen (regenerated == hand-written
+    model on all inputs; transported property theorems).  returns (ok, info) - the first failure"""
     import os, re, shutil, subprocess, sys
     import runner
     V = runner.V
     scratch = os.path.join(getattr(ctx, "scratch", os.path.join(V, "build", ctx.prop_id)), "gen")
     os.makedirs(scratch, exist_ok=True)
-    gen_v = os.path.join(scratch, "Gen_c09_linear.v")
-    for stem in (gen_v[:-2], os.path.join(scratch, "C09_Equiv")):
-        for ext in (".vo", ".vos", ".vok", ".glob"):
-            try:
-                os.remove(stem + ext)
-            except OSError:
-                pass
-    equiv = os.path.join(V, "coq", "gen", "C09_Equiv.v")
-    src = open(equiv).read()
-    src_nc = re.sub(r"\(\*.*?\*\)", " ", src, flags=re.S)
-    thms = re.findall(r"^\s*Theorem\s+([\w']+)", src_nc, flags=re.M)
-    ctx.theorems = list(ctx.theorems) + [t for t in thms if t not in ctx.theorems]
-    ctx.obligations += len(thms)
-    r = subprocess.run([sys.executable, os.path.join(V, "gen", "c09_py2coq.py"), os.environ.get("VERIF_REPO", "/repo"), gen_v],
-                       capture_output=True, text=True, timeout=120)
-    if r.returncode != 0:
-        return False, {"theorem": thms[0], "error": "translator rejected the source (outside its subset): " + (r.stdout + r.stderr)[-600:]}
-    q = ["-Q", os.path.join(V, "coq", "theories"), "QV", "-Q", scratch, "QVGen"]
-    r = subprocess.run(["timeout", "300", "coqc"] + q + [gen_v], capture_output=True, text=True)
-    if r.returncode != 0:
-        return False, {"theorem": thms[0], "error": "regenerated glue does not compile: " + (r.stdout + r.stderr)[-600:]}
-    dst = os.path.join(scratch, "C09_Equiv.v")
-    shutil.copy(equiv, dst)
-    r = subprocess.run(["timeout", "600", "coqc"] + q + [dst], capture_output=True, text=True)
-    out = r.stdout + r.stderr
-    if r.returncode != 0:
-        m_ = re.search(r"line (\d+), characters", out)
-        thm = None
-        if m_:
-            upto = "\n".join(src.splitlines()[:int(m_.group(1))])
-            names = re.findall(r"^\s*(?:Theorem|Lemma)\s+([\w']+)", upto, flags=re.M)
-            thm = names[-1] if names else None
-        return False, {"theorem": thm, "error": out[-800:]}
-    blocks = runner.parse_assumptions(out)
-    bad = [a for closed, axs in blocks for a in axs if a not in runner.ALLOWED_AXIOMS and a.split(".")[-1] not in runner.ALLOWED_AXIOMS]
-    if len(blocks) != len(thms) or bad:
-        return False, {"theorem": thms[0], "error": "assumption gate on regenerated proofs: %d blocks / %d theorems, disallowed %s" % (len(blocks), len(thms), bad)}
-    for t, (closed, axs) in zip(thms, blocks):
-        ctx.axioms[t] = "closed" if closed else sorted(set(axs))
-    ctx.discharged += len(thms)
-    return True, {}
+    result = (True, {})
+    for translator, gen_name, equiv_name in TRANSLATED:
+        gen_v = os.path.join(scratch, gen_name)
+        for stem in (gen_v[:-2], os.path.join(scratch, equiv_name[:-2])):
+            for ext in (".vo", ".vos", ".vok", ".glob"):
+                try:
+                    os.remove(stem + ext)
+                except OSError:
+                    pass
+        equiv = os.path.join(V, "coq", "gen", equiv_name)
+        src = open(equiv).read()
+        src_nc = re.sub(r"\(\*.*?\*\)", " ", src, flags=re.S)
+        thms = re.findall(r"^\s*Theorem\s+([\w']+)", src_nc, flags=re.M)
+        ctx.theorems = list(ctx.theorems) + [t for t in thms if t not in ctx.theorems]
+        ctx.obligations += len(thms)
+
+        def bad(theorem, error):
+            nonlocal result
+            if result[0]:
+                result = (False, {"theorem": theorem, "error": error})
+        r = subprocess.run([sys.executable, os.path.join(V, "gen", translator), os.environ.get("VERIF_REPO", "/repo"), gen_v],
+                           capture_output=True, text=True, timeout=120)
+        if r.returncode != 0:
+            bad(thms[0], "%s rejected the source (outside its subset): %s" % (translator, (r.stdout + r.stderr)[-600:]))
+            continue
+        q = ["-Q", os.path.join(V, "coq", "theories"), "QV", "-Q", scratch, "QVGen"]
+        r = subprocess.run(["timeout", "300", "coqc"] + q + [gen_v], capture_output=True, text=True)
+        if r.returncode != 0:
+            bad(thms[0], "regenerated %s does not compile: %s" % (gen_name, (r.stdout + r.stderr)[-600:]))
+            continue
+        dst = os.path.join(scratch, equiv_name)
+        shutil.copy(equiv, dst)
+        r = subprocess.run(["timeout", "600", "coqc"] + q + [dst], capture_output=True, text=True)
+        out = r.stdout + r.stderr
+        if r.returncode != 0:
+            m_ = re.search(r"line (\d+), characters", out)
+            thm = None
+            if m_:
+                upto = "\n".join(src.splitlines()[:int(m_.group(1))])
+                names = re.findall(r"^\s*(?:Theorem|Lemma)\s+([\w']+)", upto, flags=re.M)
+                thm = names[-1] if names else None
+            bad(thm, out[-800:])
+            continue
+        blocks = runner.parse_assumptions(out)
+        badax = [a_ for closed, axs in blocks for a_ in axs if a_ not in runner.ALLOWED_AXIOMS and a_.split(".")[-1] not in runner.ALLOWED_AXIOMS]
+        if len(blocks) != len(thms) or badax:
+            bad(thms[0], "assumption gate on regenerated proofs (%s): %d blocks / %d theorems, disallowed %s" % (equiv_name, len(blocks), len(thms), badax))
+            continue
+        for t, (closed, axs) in zip(thms, blocks):
+            ctx.axioms[t] = "closed" if closed else sorted(set(axs))
+        ctx.discharged += len(thms)
+    return result
 
 
 def run(ctx):
@@ -1314,16 +1331,32 @@ def run(ctx):
     ctx.assumptions = [
         "C09: np.linalg.inv / np.linalg.matrix_rank are oracles; inv is checked through the exact certificate M(A^T A)=I (or an exact kernel vector) on the same float matrix, matrix_rank is compared with the exact pivot count",
         "C09: the forward model (matA, vecB = Born rule of the circuit) is C08's claim; exact recovery end-to-end uses quara's own generate_prob_dists_sequence as the source of exact data",
+        "C09: the index logic of mprocess.convert_var_to_hss / povm.convert_var_to_vecs is REGENERATED (gen/c09_var_py2coq.py) and proved equal to ref_hss_stacked / ref_vecs_stacked on every run; sqrt(dim) is a model parameter",
         "C09: the glue of is_fullrank_matA / calc_estimate_sequence / calc_estimate / estimated_var(_sequence) is REGENERATED from the source (gen/c09_py2coq.py) and proved equal to the model on every run; the numpy primitives' semantics (Model/C09_PySem.v) stay hand-written",
         "C09: 2-qubit QPT, qutrit QMPT and 2-qubit QMPT (256 .. 512 variables) are checked through exactly evaluated normal equations + exact recovery only (exact inverse out of budget)",
     ]
     # flow.standard_run with this property's own translator tie (flow.regen_check is bound to gen/py2coq.py)
+    # the translator ties are re-checked in a second thread while Props/C09.v is re-checked (both are coqc subprocesses)
+    import threading
+
+    class _Acc:
+        pass
+    acc = _Acc(); acc.theorems, acc.obligations, acc.discharged, acc.axioms, acc.prop_id = [], 0, 0, {}, ctx.prop_id
+    acc.scratch = ctx.scratch
+    box = []
+    th = threading.Thread(target=lambda: box.append(regen_glue(acc)))
+    th.start()
     ok, info = runner.check_props(ctx)
-    ok2, info2 = regen_glue(ctx)
+    th.join()
+    ok2, info2 = box[0] if box else (False, {"theorem": None, "error": "regeneration thread died"})
+    ctx.theorems = list(ctx.theorems) + [t for t in acc.theorems if t not in ctx.theorems]
+    ctx.obligations += acc.obligations
+    ctx.discharged += acc.discharged
+    ctx.axioms.update(acc.axioms)
     if not ok2:
         ok, info = False, info2
         ctx.boost = True          # widen the sweeps: look harder for a concrete failing input
-        ctx.note("regenerated-glue obligations (coq/gen/C09_Equiv.v) not discharged: %s" % str(info2)[:600])
+        ctx.note("regenerated obligations (coq/gen/C09_Equiv.v, C09_VarEquiv.v) not discharged: %s" % str(info2)[:600])
         ctx.note("translator tie broken: sub-checks synthetic / history run with enlarged sizes")
     if not ok:
         ctx.discharged = min(ctx.discharged, ctx.obligations - 1)
@@ -1331,7 +1364,7 @@ def run(ctx):
         if ctx.only is None or name in ctx.only:
             fn(ctx)
     if not ok and not ctx.violations:
-        ctx.violation("theorems", "Props/%s.v + coq/gen/C09_Equiv.v" % ctx.prop_id, "theorem-broken:%s" % info.get("theorem"),
+        ctx.violation("theorems", "Props/%s.v + coq/gen/C09_Equiv.v + coq/gen/C09_VarEquiv.v" % ctx.prop_id, "theorem-broken:%s" % info.get("theorem"),
                       "theorem %s no longer checks: %s" % (info.get("theorem"), info.get("error", "")[-500:]),
                       {"theorem": info.get("theorem"), "error": info.get("error")}, no_input=True)
     elif not ok:
